@@ -279,6 +279,8 @@ var reg = vk.Registry{
 	},
 }
 
+func init() { reg["sequence"] = vk.SequenceReplayer(reg) }
+
 func TestReplay(t *testing.T) { vk.RunReplay(t, reg) }
 
 func TestExchanges(t *testing.T) {
@@ -337,7 +339,7 @@ func TestExchanges(t *testing.T) {
 		}
 		rec.Class("exchange:" + c.Exchange)
 		rec.Sample(c.Exchange, map[string]any{"case": c, "request_digest": vk.Hex(rq), "response_digest": vk.Hex(rs)})
-		rec.Report(t, "auth", check(c))
+		rec.ReportSeq(t, "auth", c, func() *vk.Violation { return check(c) })
 	})
 }
 
@@ -368,6 +370,6 @@ func TestTimestampClock(t *testing.T) {
 			rec.NonTrivial("clock", c.StartUnix, c.StartNs, c.StepMs)
 			rec.Class("running_clock")
 		}
-		rec.Report(t, "clock", checkClock(c))
+		rec.ReportSeq(t, "clock", c, func() *vk.Violation { return checkClock(c) })
 	})
 }
